@@ -256,7 +256,7 @@ def scenario(ctx):
     conn.a.taps.append(mon.wrote)
     pipe_sc = conn.pipes[1]
     sched = Scheduler(ctx, allow_stall=False)
-    home = ctx.seams.home()
+    home = ctx.seams.home(nonascii=('lines' not in pre and 'accept' not in pre and ds.flag(0.15)))
 
     def earlier_connection(krdir):
         # the process has connected before: to another conforming server (its own accepted
